@@ -1097,3 +1097,32 @@ func deepUnalias(t types.Type) types.Type {
 	}
 	return t
 }
+
+// checkSitesExist: an "at <site>#k" clause (k-th such instruction) whose selector matches no instruction of the function no longer describes
+// the code (the call/store it hangs on was removed or renumbered): the contract does not apply, which is reported
+// like any other out-of-date contract instead of silently dropping the clause.
+func (ex *Exec) checkSitesExist(fc *FuncContract) {
+	for _, cl := range fc.Sites {
+		_, sel, _ := strings.Cut(cl.Kind, ":")
+		kind, _, _ := strings.Cut(sel, " ")
+		switch kind {
+		case "call", "store", "fieldstore", "mapupdate":
+		default:
+			continue
+		}
+		if !strings.Contains(sel, "#") {
+			continue // "at call f" without an ordinal means every such call, possibly none
+		}
+		found := false
+		for _, b := range ex.fn.Blocks {
+			for _, in := range b.Instrs {
+				if ex.siteMatches(sel, in) {
+					found = true
+				}
+			}
+		}
+		if !found {
+			panic(cerr{fmt.Sprintf("site %q of %s matches no instruction of the function", sel, fc.Key)})
+		}
+	}
+}
